@@ -50,6 +50,11 @@ impl Out {
         self.cases.push(c);
         self.meta.push(("oracle", class));
     }
+    /// An informational case: the model's answer is tallied into the evidence, never compared.
+    pub fn add_info(&mut self, c: Case) {
+        self.cases.push(c);
+        self.meta.push(("info", None));
+    }
     pub fn count(&mut self, k: &str) {
         *self.hist.entry(k.to_string()).or_insert(0) += 1;
     }
